@@ -136,6 +136,49 @@ func checkOffsetsAndLengths(p *Program, r *Result, isSink func(ssa.CallInstructi
 		for _, st := range stores {
 			checkSnapshot(p, r, st.Parent(), st.Val, of.typ+"."+of.field, of.allowed, of.zeroOK, st, isSink)
 		}
+		// the two footer offsets have two legal values each: the position when the section exists, 0 when it does not.
+		// Both alternatives must be there (a bare snapshot names a summary that was never written; a bare 0 hides one
+		// that was)
+		if of.typ == "Footer" {
+			hasSnap, hasZero, unknown := false, false, false
+			for _, st := range stores {
+				var alts []ssa.Value
+				if phi, ok := stripConv(st.Val).(*ssa.Phi); ok {
+					alts = phi.Edges
+				} else {
+					alts = []ssa.Value{st.Val}
+				}
+				for _, a := range alts {
+					switch {
+					case sizeCallOf(a) != nil:
+						hasSnap = true
+					default:
+						if c, ok := stripConv(a).(*ssa.Const); ok && c.Value != nil && c.Value.String() == "0" {
+							hasZero = true
+						} else if hsc, _, zr := helperSnapshot(p, a); hsc != nil {
+							hasSnap = true
+							hasZero = hasZero || zr
+						} else {
+							unknown = true
+						}
+					}
+				}
+			}
+			{
+				st := stores[0]
+				construct := of.typ + "." + of.field + " is the section's position, or 0 when the section is absent"
+				switch {
+				case unknown:
+					r.note("C05.b", funcName(st.Parent()), construct, p.pos(st.Pos()), "value form not recognised: not judged")
+				case hasSnap && hasZero:
+					r.held("C05.b", funcName(st.Parent()), construct, p.pos(st.Pos()), "both alternatives present")
+				case !hasSnap:
+					r.violated("C05.b", funcName(st.Parent()), construct, p.pos(st.Pos()), of.typ+"."+of.field+" is always 0: readers cannot find the section although it is written")
+				default:
+					r.violated("C05.b", funcName(st.Parent()), construct, p.pos(st.Pos()), of.typ+"."+of.field+" is never 0: for a file whose section is empty the footer points at bytes that are not that section (the specification requires 0)")
+				}
+			}
+		}
 	}
 	// MessageIndexOffsets[channel] = w.w.Size() immediately before WriteMessageIndex of the same index
 	if fn0 := p.lookupFunc(pkgMcap, "Writer.WriteChunkWithIndexes"); fn0 != nil {
